@@ -14,7 +14,7 @@ from sa.model import AnalysisError
 from sa.ctx import Ctx, short, stmt_key
 from sa.cfg import NORMAL, describe_path
 from sa.report import Report
-from sa.util import cfg_root, node_has_call, has_fact
+from sa.util import cfg_root, node_has_call, has_fact, fact_in, local_assigned_from
 from sa import pat
 
 PROTOCOL = ("embrace_change", "delete_synced", "_handle_dir_delete_not_empty", "handle_changed_is_missing", "handle_hash_diff", "handle_corrupt",
@@ -29,8 +29,11 @@ def run(ctx: Ctx, rep: Report, tier: str):
     rep.rule("C01.R1", "sync(): a FINISHED response calls finished(side, sync), a PUNT response calls sync.punt()", expect_min=2)
     s = M.methods["sync"]
     sync = s.params()[1]
-    fin = [c for c in ctx.calls(s, "finished") if ("response == FINISHED", True) in ctx.facts_at(s, c)]
-    pun = [c for c in ctx.calls(s, "punt") if ("response == PUNT", True) in ctx.facts_at(s, c)]
+    resp = local_assigned_from(ctx, s, "self.embrace_change($$$)")
+    if resp is None:
+        raise AnalysisError("sync(): the value of embrace_change() is not bound to a single local")
+    fin = [c for c in ctx.calls(s, "finished") if fact_in(ctx.facts_at(s, c), "%s == FINISHED" % resp, True)]
+    pun = [c for c in ctx.calls(s, "punt") if fact_in(ctx.facts_at(s, c), "%s == PUNT" % resp, True)]
     rep.check("C01.R1", "sync|FINISHED", s, bool(fin), "finished() under response == FINISHED", "a FINISHED response no longer clears the change flag: the engine never reports quiet")
     rep.check("C01.R1", "sync|PUNT", s, bool(pun), "punt() under response == PUNT", "a PUNT response no longer lowers the entry's rank: a persistently punting entry starves the rest")
     rep.rule("C01.R2", "every function whose value is used as the step response returns FINISHED / PUNT / REQUEUE (or another protocol function's "
@@ -60,7 +63,7 @@ def run(ctx: Ctx, rep: Report, tier: str):
                 ok = bool(defs) and all((isinstance(d.value, ast.Name) and d.value.id in CONSTS) or (isinstance(d.value, ast.Call) and isinstance(d.value.func, ast.Attribute) and d.value.func.attr in PROTOCOL) for d in defs)
                 if not ok and defs and all(isinstance(d.value, ast.Call) and isinstance(d.value.func, ast.Attribute) and d.value.func.attr in OPTIONAL for d in defs):
                     # an optional answer (None = "not handled"): fine when returned only if it is not None
-                    ok = ("%s is None" % v.id, False) in ctx.facts(f).facts(n)
+                    ok = fact_in(ctx.facts(f).facts(n), "%s is None" % v.id, False)
             if not ok:
                 bad.append("line %d returns `%s`" % (n.lineno, ast.unparse(v) if v is not None else None))
         rep.check("C01.R2", name, f, not bad, "all %d exits return a protocol value" % len(g.pred[g.exit.id]),
@@ -113,13 +116,18 @@ def run(ctx: Ctx, rep: Report, tier: str):
             continue
         drops.append(n)
     kinds = []
+    chg_name = None      # the local that holds "hash or path differs"
+    for n_ in ctx.own_nodes(pe):
+        if isinstance(n_, ast.Assign) and isinstance(n_.targets[0], ast.Name) and isinstance(n_.value, ast.BoolOp) and isinstance(n_.value.op, ast.Or) \
+                and {"hash", "path"} <= {x.attr for x in ast.walk(n_.value) if isinstance(x, ast.Attribute)}:
+            chg_name = n_.targets[0].id
     for d in drops:
         facts = ctx.facts(pe).facts(d)
-        if ("event", False) in facts:
+        if fact_in(facts, "event", False):
             kinds.append("falsy-event")
-        elif ("event.oid is None", True) in facts:
+        elif fact_in(facts, "event.oid is None", True):
             kinds.append("no-id")
-        elif ("from_walk", True) in facts and ("changed", False) in facts:
+        elif fact_in(facts, "from_walk", True) and chg_name is not None and fact_in(facts, chg_name, False):
             kinds.append("unchanged-walk")
         else:
             kinds.append("?" + str(sorted(facts)))
